@@ -94,13 +94,15 @@ class FdTable(EngineBase):
         block = plan.get("block")
         cm = None
         if block:
-            # the judged call is the second one inside a oneshot() block,
-            # after the table changed: it must describe the table it runs
-            # against, not the one its predecessor saw
-            cm = p.oneshot()
+            # the judged call is the second one (inside one oneshot() block
+            # or not) after the table changed: it must describe the table it
+            # runs against, not the one its predecessor saw
+            if block.get("oneshot", True):
+                cm = p.oneshot()
             k.begin_op(5)
             try:
-                cm.__enter__()
+                if cm is not None:
+                    cm.__enter__()
                 getattr(p, block["first"])()
             except BaseException as e:  # noqa: BLE001
                 if is_harness_exc(e):
@@ -137,7 +139,8 @@ class FdTable(EngineBase):
                   if fd not in initial}
         tags = []
         if block:
-            tags.append("second_call_in_block")
+            tags.append("second_call_in_block" if block.get("oneshot", True)
+                        else "second_call")
         if changed:
             tags.append("table_changed")
         if not alive:
@@ -265,10 +268,27 @@ class FdTable(EngineBase):
                         if all(f in world["files"] for f in files):
                             between.append({"ev": "open_fd", "pid": 42,
                                             "fd": newfd, "desc": d})
+                regs = [(fd, d) for fd, d in world["fds"]
+                        if d["kind"] == "file" and
+                        not d["target"].endswith(" (deleted)")]
+                if regs and rng.random() < 0.5:
+                    # a path seen as a regular file is re-created as a
+                    # device / directory / socket and opened again
+                    fd, d = rng.choice(regs)
+                    kind_, node = rng.choice([
+                        ("chr", {"t": "c", "rdev": 1281}),
+                        ("dir", {"t": "d"}), ("chr", {"t": "s"})])
+                    between += [
+                        {"ev": "close_fd", "pid": 42, "fd": fd},
+                        {"ev": "file_set", "path": d["target"], "node": node},
+                        {"ev": "open_fd", "pid": 42, "fd": 400 + fd, "desc": {
+                            "kind": kind_, "target": d["target"], "pos": 0,
+                            "flags": 2, "ino": 900 + fd}}]
                 if not between:
                     continue
                 bp = dict(base, block={"first": rng.choice(
-                    ["open_files", "num_fds", "io_counters"]),
+                    ["open_files", "open_files", "num_fds", "io_counters"]),
+                    "oneshot": rng.random() < 0.5,
                     "between": between})
                 r = W.execute_forked(bp)
                 u["evals"] += 1
